@@ -1,6 +1,30 @@
-"""C17 - serial packets (Wire.tla)."""
+"""C17 - serial packets (Wire.tla) and serial link sessions (Serial.tla)."""
+import json
+
 import vlib
-from props.common import role1, generate, harness
+from props.common import role1, generate, harness, diverse
+
+
+def sessions_phase(ctx, vh):
+    """The link protocol around the packets (Serial.tla): scripted device sessions against the real
+    serial client.  Only the C17 clause (a damaged packet is neither acknowledged nor forwarded)
+    can fail the check; the rest is reported as agreement with the specification."""
+    r1 = vlib.run_tlc(ctx.sc, "MC_Serial", "MC_Serial.cfg", timeout=900)
+    r2 = vlib.run_tlc(ctx.sc, "MC_Serial", "MC_Serial_doc.cfg", allow_violation=True, timeout=900)
+    if not r2.violation or "EveryValidAcked" not in r2.violation:
+        raise vlib.MachineryError("MC_Serial_doc.cfg: the as-coded handling of empty packets no longer violates EveryValidAcked")
+    n = 5 if ctx.tier == "quick" else 40
+    g = vlib.run_tlc(ctx.sc, "MC_Serial", "Gen_Serial.cfg", collect_json=True, workers=1, simulate=n, depth=12,
+                     seed=ctx.seed, timeout=900)
+    sessions = diverse(g.lines, n, seed=ctx.seed)
+    p = ctx.sc.path("serial.jsonl")
+    with open(p, "w") as f:
+        for s in sessions:
+            f.write(json.dumps(s) + "\n")
+    res = harness(ctx, vh, ["serial", "--cases", p], timeout=3000)
+    detail = [{"cfg": "MC_Serial.cfg", "distinct": r1.distinct},
+              {"cfg": "MC_Serial_doc.cfg", "must_violate": "EveryValidAcked", "violated": True}]
+    return r1.distinct, detail, res
 
 
 def run(ctx):
@@ -12,6 +36,12 @@ def run(ctx):
     if t == "thorough":
         args += ["--bursts", "exhaustive", "--corrupt-packets", "2"]
     res = harness(ctx, vh, args, timeout=3400)
+    sstates, sdetail, sres = sessions_phase(ctx, vh)
+    res["failures"] = list(res["failures"]) + [f for f in sres["failures"] if f["finding"].startswith("C17:")]
+    res["evaluations"] += sres["evaluations"]
+    detail = detail + sdetail
+    if isinstance(res.get("extra"), dict):
+        res["extra"]["serial_sessions"] = sres.get("extra")
     cov = {
         "states": states, "transitions": trans, "role1": detail,
         "traces_validated_against_impl": res["traces"],
@@ -24,7 +54,12 @@ def run(ctx):
                 "every subject shape: all single-bit and all double-bit errors exhaustively; bursts of 3..16 bits at "
                 "every start (quick: 4 interior patterns + 10^6 seeded, exhaustive over the subject field of Hole "
                 "subjects; thorough: every interior pattern). A damaged packet that decodes must carry the original "
-                "content. distinct_nontrivial = distinct round-trip packets (seq, subject, point patterns).",
+                "content. distinct_nontrivial = distinct round-trip packets (seq, subject, point patterns). Link sessions: TLC "
+                "checks Serial.tla (acknowledge once with the packet's number, publish once, no echo to the device, consecutive host "
+                "numbers, damaged packets silent) for every step from every host state; simulated sessions (valid, empty, "
+                "damaged, short and high-rate frames from a scripted device on the fifo port of a real serial client, point "
+                "batches written to the serial node) are run step by step; a damaged packet that is answered or forwarded "
+                "fails the check, the other observations are counted as agreement with the specification.",
         "samples": res["samples"], "extra": res.get("extra"),
     }
     return {"coverage": cov, "failures": res["failures"],
